@@ -89,7 +89,8 @@ def ob_handshake(report):
             pcs = ' '.join(str(z3.simplify(c)).replace('\n', ' ') for c in r.pc if 'origin(' not in str(c))
             def has(pat):
                 return any(re.search(pat, n) for n in seq)
-            if e2.solve(r.pc + [od != IN], want_model=False)[0] == 'unsat':
+            dom = [z3.Or(od == IN, od == OUT)]
+            if e2.solve(r.pc + dom + [od != IN], want_model=False)[0] == 'unsat':
                 seen.add('listener')
                 need = [r'Connection::open_uni', r'write_version_frame', r'SendStream::finish', r'SendStream::stopped']
                 idx = []
@@ -102,7 +103,7 @@ def ob_handshake(report):
                     return viol(ob, [ex], 'listener handshake steps out of order', 'hs-listener-order', path_summary(r), len(res))
                 if re.search(r'discr == 1', pcs):
                     return viol(ob, [ex], 'listener handshake returns Ok although a step failed', 'hs-listener-failed-step', path_summary(r), len(res))
-            elif e2.solve(r.pc + [od != OUT], want_model=False)[0] == 'unsat':
+            elif e2.solve(r.pc + dom + [od != OUT], want_model=False)[0] == 'unsat':
                 seen.add('dialer')
                 for pat in (r'Connection::accept_uni', r'read_version_frame'):
                     if not has(pat):
